@@ -48,12 +48,15 @@ def dispatch (fn : String) (args : List String) (impl : String) : Option Verdict
       mk (match utf8? bs with
           | none => "notutf8"
           | some t => if (C13.parseText t).isSome then "ok" else "err")
-  | "p_conf", [bytes, _] =>
+  | "p_conf", [bytes, c] =>
     (unhex bytes).bind fun bs =>
+      -- third field: `w`, or `n<hex>` = the name the text is parsed under
+      let name : List Char := if c.startsWith "n" then ((unhex (c.drop 1).toString).bind utf8?).map String.toList |>.getD "c03.conf".toList
+                              else "c03.conf".toList
       mk (match utf8? bs with
           | none => "notutf8"
           | some t =>
-            match Conf.parseConf (C15.lookupFs []) t.toList "c03.conf".toList with
+            match Conf.parseConf (C15.lookupFs []) t.toList name with
             | .ok _ => "ok" | .err _ => "err" | .panic => "PANIC")
   | _, _ => none
 
